@@ -59,10 +59,20 @@ func (hNoAttDuties) AttesterDuties(_ context.Context, _ *api.AttesterDutiesOpts)
 // last - has a message job, whichever of start-up and the epoch ticker set it
 // up. Minimal preset: 8 epochs per period; 2 slots per epoch.
 func VerifC15_StartupCoverage() {
+	c15Startup([]uint64{0, 1, 1000003}[vnd.Choose("period", 3)])
+}
+
+// VerifC15_StartupCoverageAnyPeriod: the same with a symbolic period number.
+func VerifC15_StartupCoverageAnyPeriod() {
+	period := vnd.U64("period")
+	vnd.Assume(period < 1<<24)
+	c15Startup(period)
+}
+
+func c15Startup(period uint64) {
 	const spe, epp = 2, 8
 	vstub.SPEChoices = []uint64{spe}
 	ct := vstub.NewChainTime(0)
-	period := []uint64{0, 1, 1000003}[vnd.Choose("period", 3)]
 	startEpoch := period*epp + uint64(vnd.Choose("epoch-in-period", epp))
 	startSlot := startEpoch*spe + uint64(vnd.Choose("slot-in-epoch", spe))
 	ct.Cur = phase0.Slot(startSlot)
